@@ -63,9 +63,21 @@ def _run_task(task):
         fn = functools.partial(lm.fn, *args) if args else lm.fn
         opts = dict(lm.opts)
         topts = opts.pop(tier, {})
-        opts = {k: v for k, v in opts.items() if k not in ("quick", "thorough")}
+        opts = {k: v for k, v in opts.items() if k not in ("quick", "thorough", "optional_clauses", "replay_fn")}
         opts.update(topts)
         r = explore(label, fn, allowed_exc=lm.raises, seed=seed, known=known, **opts)
+        # vacuity guard: every clause named literally in the harness must have been reached on some path
+        import inspect
+        import re
+        try:
+            src = inspect.getsource(lm.fn)
+            expected = set(re.findall(r'sym\.check\(\s*"([^"{}]+)"', src))
+        except (OSError, TypeError):
+            expected = set()
+        optional = set(lm.opts.get("optional_clauses", ()))
+        missing = sorted(c for c in expected - optional if c not in r.clause_counts)
+        if missing and not r.truncated:
+            r.inconclusive.append(f"VACUOUS: clause(s) never reached on any path: {missing}")
         return {"kind": "symx", "lemma": lname, "label": label, "verdict": r.verdict, "paths": r.paths, "ok_paths": r.ok_paths,
                 "exc_paths": r.exc_paths, "checks_ok": r.checks_ok, "checks_nontrivial": r.checks_nontrivial,
                 "cex": [{"clause": c.clause, "inputs": c.inputs, "preds": c.preds, "info": _s(c.info), "reproduced": c.reproduced,
